@@ -140,6 +140,8 @@ func checkC05(p *Prog, r *Report) {
 			case ft.Op == "assigned" || ft.Op == "range" || ft.Op == "comm" || ft.Op == "default":
 			case ft.Op == "==" && p.isNilExpr(ft.Y) && (p.atomIsCallAny(hir, ft.X, "ice.AttrControl.GetFrom", "stun.AssertUsername", "stun.MessageIntegrity.Check")):
 			case ft.Op == "==" && (p.IsField(ft.X, "AttrControl.Role") || p.IsField(ft.Y, "AttrControl.Role")):
+			case p.flagIsExactly(hir, ft):
+				// a flag that is true exactly when facts listed here hold (e.g. the result of a boolean helper) adds nothing
 			default:
 				extra = append(extra, stripVarLines(ft.String()))
 			}
